@@ -178,67 +178,72 @@ func c12SSH(c *Ctx) {
 					continue
 				}
 			}
-			if accepts(r) {
-				nsucc++
-				wild := false
-				var partsCall *ssa.Call
-				userOK, pwOK, lenOK := false, false, false
-				for _, dc := range conds {
-					x, y, ok := eqCond(dc)
-					if !ok {
-						continue
-					}
-					if s, isS := ConstString(y); isS && s == "*" && rangeElemOfField(x, "Credentials") {
-						wild = true
-					}
-					for _, pr := range [][2]ssa.Value{{x, y}, {y, x}} {
-						a, b := pr[0], pr[1]
-						if isUser(a) {
-							if el, sc, ok := splitPart(b, ":", 0); ok && rangeElemOfField(el, "Credentials") {
-								userOK = true
-								partsCall = sc
-							}
+			for ai, conds := range flagAlternatives(conds) {
+				if ai > 0 {
+					key = fmt.Sprintf("%s return[%d] way %d", label, i, ai+1)
+				}
+				if accepts(r) {
+					nsucc++
+					wild := false
+					var partsCall *ssa.Call
+					userOK, pwOK, lenOK := false, false, false
+					for _, dc := range conds {
+						x, y, ok := eqCond(dc)
+						if !ok {
+							continue
 						}
-						if isPw(a) {
-							if el, sc, ok := splitPart(b, ":", 1); ok && rangeElemOfField(el, "Credentials") {
-								pwOK = partsCall == nil || partsCall == sc
-								if partsCall == nil {
+						if s, isS := ConstString(y); isS && s == "*" && rangeElemOfField(x, "Credentials") {
+							wild = true
+						}
+						for _, pr := range [][2]ssa.Value{{x, y}, {y, x}} {
+							a, b := pr[0], pr[1]
+							if isUser(a) {
+								if el, sc, ok := splitPart(b, ":", 0); ok && rangeElemOfField(el, "Credentials") {
+									userOK = true
 									partsCall = sc
 								}
 							}
-						}
-					}
-					// len(parts) == 2
-					if call, ok := x.(*ssa.Call); ok {
-						if bi, ok := call.Call.Value.(*ssa.Builtin); ok && bi.Name() == "len" {
-							if n, isC := ConstInt(y); isC && n == 2 {
-								if sc, ok := call.Call.Args[0].(*ssa.Call); ok && FuncIs(sc.Call.StaticCallee(), "strings", "Split") {
-									lenOK = true
+							if isPw(a) {
+								if el, sc, ok := splitPart(b, ":", 1); ok && rangeElemOfField(el, "Credentials") {
+									pwOK = partsCall == nil || partsCall == sc
+									if partsCall == nil {
+										partsCall = sc
+									}
 								}
 							}
 						}
-					}
-				}
-				ok := wild || (userOK && pwOK && lenOK)
-				why := fmt.Sprintf("conditions at this success return: %v", RenderConds(conds))
-				c.Check(ok, "ssh-success-iff-credential", key, p.InstrPos(r), "success under wildcard or exact user:password match of a configured entry", "authentication succeeds without (credential==\"*\") or (len(parts)==2 && user==parts[0] && password==parts[1]) for a configured credential; "+why)
-			} else {
-				nfail++
-				// failure only after the whole list was scanned: not in the loop, and dominated by the range loop's exhaustion edge
-				exhausted := false
-				for _, dc := range conds {
-					b, ok := dc.V.(*ssa.BinOp)
-					if ok && b.Op == token.LSS && !dc.Pol && isAscendingIndex(b.X) {
-						if call, ok := b.Y.(*ssa.Call); ok {
+						// len(parts) == 2
+						if call, ok := x.(*ssa.Call); ok {
 							if bi, ok := call.Call.Value.(*ssa.Builtin); ok && bi.Name() == "len" {
-								if _, ok := isFieldLoadNamed(call.Call.Args[0], "Credentials"); ok {
-									exhausted = true
+								if n, isC := ConstInt(y); isC && n == 2 {
+									if sc, ok := call.Call.Args[0].(*ssa.Call); ok && FuncIs(sc.Call.StaticCallee(), "strings", "Split") {
+										lenOK = true
+									}
 								}
 							}
 						}
 					}
+					ok := wild || (userOK && pwOK && lenOK)
+					why := fmt.Sprintf("conditions at this success return: %v", RenderConds(conds))
+					c.Check(ok, "ssh-success-iff-credential", key, p.InstrPos(r), "success under wildcard or exact user:password match of a configured entry", "authentication succeeds without (credential==\"*\") or (len(parts)==2 && user==parts[0] && password==parts[1]) for a configured credential; "+why)
+				} else {
+					nfail++
+					// failure only after the whole list was scanned: not in the loop, and dominated by the range loop's exhaustion edge
+					exhausted := false
+					for _, dc := range conds {
+						b, ok := dc.V.(*ssa.BinOp)
+						if ok && b.Op == token.LSS && !dc.Pol && isAscendingIndex(b.X) {
+							if call, ok := b.Y.(*ssa.Call); ok {
+								if bi, ok := call.Call.Value.(*ssa.Builtin); ok && bi.Name() == "len" {
+									if _, ok := isFieldLoadNamed(call.Call.Args[0], "Credentials"); ok {
+										exhausted = true
+									}
+								}
+							}
+						}
+					}
+					c.Check(exhausted && !InLoop(r.Block()), "ssh-failure-only-after-scan", key, p.InstrPos(r), "rejection only after every configured credential was tried", "a rejection is returned before the whole credential list was scanned (an entry later in the list, or the wildcard, would be ignored): "+fmt.Sprint(RenderConds(conds)))
 				}
-				c.Check(exhausted && !InLoop(r.Block()), "ssh-failure-only-after-scan", key, p.InstrPos(r), "rejection only after every configured credential was tried", "a rejection is returned before the whole credential list was scanned (an entry later in the list, or the wildcard, would be ignored): "+fmt.Sprint(RenderConds(conds)))
 			}
 		}
 	}
@@ -371,6 +376,7 @@ func c12LDAP(c *Ctx) {
 			case *ssa.Function:
 				fn = v
 			}
+			fn = unwrapBound(fn)
 			switch fieldNameOf(fa) {
 			case "bindFunc":
 				bind = fn
@@ -379,10 +385,11 @@ func c12LDAP(c *Ctx) {
 			}
 		}
 	}
-	if !c.Anchor(bind != nil && len(bind.Params) == 2, "ldap-bind", "closure assigned to bindFuncHandler.bindFunc") {
+	if !c.Anchor(bind != nil && len(bind.Params) >= 2, "ldap-bind", "closure assigned to bindFuncHandler.bindFunc") {
 		return
 	}
-	dn, pw := bind.Params[0], bind.Params[1]
+	// a closure (dn, pw) or a method value (recv, dn, pw)
+	dn, pw := bind.Params[len(bind.Params)-2], bind.Params[len(bind.Params)-1]
 	// the credential string: a strings.Builder written exactly binddn, ':', bindpw in this order
 	var builder *ssa.Alloc
 	var writes []string
@@ -1013,4 +1020,23 @@ func throughWrapper(f *ssa.Function) *ssa.Function {
 		f = next
 	}
 	return f
+}
+
+// unwrapBound: a method value (s.checkBind) is a closure over a synthetic bound-method wrapper; returns the method itself.
+func unwrapBound(fn *ssa.Function) *ssa.Function {
+	if fn == nil || fn.Synthetic == "" || len(fn.Blocks) == 0 {
+		return fn
+	}
+	var callee *ssa.Function
+	n := 0
+	for _, call := range Calls(fn) {
+		if f := call.Common().StaticCallee(); f != nil {
+			callee = f
+			n++
+		}
+	}
+	if n == 1 && callee != nil {
+		return callee
+	}
+	return fn
 }
